@@ -644,6 +644,19 @@ func c01Cases(r *core.Run, prop string) []XZWCase {
 			}
 		}
 	}
+	// (l) codec pollution: recurring long phrases (long length class, rep matches), then noise with
+	// planted repeats (stored raw after a compression attempt that used every codec), then phrases
+	// again - the state restored after the raw chunk must not share any table with the attempt
+	for _, sh := range [][]Seg{
+		{{K: "P", Seed: 51, N: 20000}, {K: "N", Seed: 51, N: 70000}, {K: "P", Seed: 52, N: 20000}},
+		{{K: "N", Seed: 53, N: 70000}, {K: "P", Seed: 53, N: 20000}},
+		{{K: "P", Seed: 54, N: 5000}, {K: "N", Seed: 54, N: 70000}, {K: "N", Seed: 55, N: 70000}, {K: "P", Seed: 54, N: 20000}, {K: "K", N: 3000}},
+		{{K: "T", Seed: 56, N: 30000}, {K: "N", Seed: 56, N: 140000}, {K: "T", Seed: 57, N: 30000}},
+	} {
+		for _, c := range []XZCfg{{}, {DictCap: 65536}, {DictCap: 1 << 20, Matcher: 1}, {Props: true, LC: 0, LP: 0, PB: 0, DictCap: 65536}, {Props: true, LC: 1, LP: 2, PB: 4, DictCap: 1 << 17, BlockSize: 100000}} {
+			add(XZWCase{Cfg: c, Shape: sh})
+		}
+	}
 	// (i) raw-chunk residency boundary: DictCap+BufSize just below / at / above the size of one full
 	// incompressible chunk (64 KiB), with more than two chunks of incompressible input: the writer
 	// may store a chunk raw only while its bytes are still held by the encoder dictionary
